@@ -524,7 +524,7 @@ func init() {
 	ck := &run.Check{
 		Prop:  "C12",
 		Level: "exploration",
-		Rule: "steered store programs of 3-19 persistence rounds (1-2 batches each, child collections in half of the cases, compaction disabled / leveled / forced) interleaved with full SnapshotPrevious walks, reopens, and SnapshotRevert (after Collection.Close) to a target 0-4 steps back followed by reopen, further rounds, walks and reverts; the walk must yield, newest first, exactly the recorded store contents (one entry per total_persists increment, list restarted at each compaction and at each revert) and then nil; after a revert Store.Snapshot, the reopened collection and the content later batches build on must be the target. A third of the cases also keep one round's store snapshot open across later rounds and compactions and then revert to it: it must still read what it read; without a full compaction since, the revert must succeed; whenever SnapshotRevert reports success the target must be the store's content and what a reopen yields, and when it refuses (snapshot in a superseded file) nothing may have changed. distinct_nontrivial = distinct walk depths, (revert depth/history length) pairs and round kinds.",
+		Rule: "steered store programs of 3-19 persistence rounds (1-2 batches each, child collections in half of the cases, compaction disabled / leveled / forced) interleaved with full SnapshotPrevious walks, reopens, and SnapshotRevert (after Collection.Close) to a target 0-4 steps back followed by reopen, further rounds, walks and reverts; the walk must yield, newest first, exactly the recorded store contents (one entry per total_persists increment, list restarted at each compaction and at each revert) and then nil; after a revert Store.Snapshot, the reopened collection and the content later batches build on must be the target. A third of the cases also keep one round's store snapshot open across later rounds and compactions and then revert to it: it must still read what it read; without a full compaction since, the revert must succeed; whenever SnapshotRevert reports success the target must be the store's content and what a reopen yields, and when it refuses (snapshot in a superseded file) nothing may have changed. distinct_nontrivial = distinct walk depths, (revert depth/history length) pairs and round kinds. In half of the reverts the snapshot that was reverted to stays open: it is re-read (faults trapped) after the store was closed, after the reopen, after every later round / compaction and at the end, and must keep reading what it read.",
 		MinUnits:    8,
 		Assumptions: []string{"a revert restarts the history like a compaction does (what a walk across a revert footer must yield is not stated by the property)"},
 	}
